@@ -44,7 +44,7 @@ func i64p(v *ds.IntType) *int64 {
 	return &x
 }
 
-var c04Times = []int64{1, 2, 3, 4, 5, 6, 15, 100}
+var c04Times = []int64{1, 2, 3, 4, 5, 6, 15, 100, 199, 200, 201, 300, 1000}
 var c04Sides = []int64{1, 2, 3, 6, 10, 20, 100, 1 << 31, (1 << 62) + 1}
 
 func c04N(tier string) int {
@@ -60,6 +60,10 @@ func c04Case(w *fw.W, idx int, r *fw.Rand) {
 	case kind < 4:
 		c04Direct(w, idx, r)
 	case kind < 7:
+		if idx%50 == 6 {
+			c04DefaultSides(w, idx, r)
+			return
+		}
 		c04VM(w, idx, r)
 	case kind < 8:
 		c04VMMulti(w, idx, r)
@@ -214,7 +218,7 @@ func c04VM(w *fw.W, idx int, r *fw.Rand) {
 	var check func(total int64, text string, drawn []int64) string
 	switch fam {
 	case 0, 1:
-		times := fw.PickT(r, []int64{1, 2, 3, 4, 5, 6, 15, 100})
+		times := fw.PickT(r, []int64{1, 2, 3, 4, 5, 6, 15, 100, 200, 201, 300, 1000})
 		sides := fw.PickT(r, []int64{1, 2, 3, 6, 10, 20, 100, 1 << 31, (1 << 62) + 1})
 		p := mon.CommonParams{Times: times, Sides: sides}
 		src = wrapNum(r, times) + r.Pick([]string{"d", "D"}) + wrapNum(r, sides)
@@ -377,6 +381,75 @@ func c04VM(w *fw.W, idx int, r *fw.Rand) {
 	if idx%9000 == 5 {
 		w.Sample(map[string]any{"kind": "vm", "src": src, "seed": seed, "ret": vm.Ret.ToString(), "detail": trunc(span.Text, 80), "drawn": len(tap.drawn)})
 	}
+}
+
+// c04DefaultSides: dice without explicit sides take them from Config.DefaultDiceSideExpr as it is
+// configured at the time of the roll, also when the host changes it between evaluations.
+func c04DefaultSides(w *fw.W, idx int, r *fw.Rand) {
+	cfg := AllDice()
+	cfg.Seed = r.U64() | 1
+	vm := cfg.NewVM()
+	n := r.Range(2, 5)
+	var hist []string
+	for k := 0; k < n; k++ {
+		sides := fw.PickT(r, []int64{0, 4, 6, 20, 100, 1000})
+		expr := ""
+		want := int64(100)
+		if sides != 0 {
+			want = sides
+			expr = r.Pick([]string{fmt.Sprint(sides), fmt.Sprintf("%d + 0", sides), fmt.Sprintf("(%d)", sides)})
+		}
+		vm.Config.DefaultDiceSideExpr = expr
+		times := int64(r.Range(1, 4))
+		src := r.Pick([]string{"d", fmt.Sprintf("%dd", times)})
+		if src == "d" {
+			times = 1
+		}
+		hist = append(hist, fmt.Sprintf("DefaultDiceSideExpr=%q %s", expr, src))
+		desc := fmt.Sprintf("seed=%d history=%q", cfg.Seed, hist)
+		w.Begin(idx, desc)
+		tap := newRollTap()
+		var sidesSeen []int64
+		tap.OnRoll = func(s *rand.PCGSource, sd ds.IntType, mode int, result ds.IntType, family string) {
+			tap.drawn = append(tap.drawn, int64(result))
+			sidesSeen = append(sidesSeen, int64(sd))
+		}
+		hook.Set(&tap.Monitor)
+		var err error
+		pv, st := fw.Guard(func() { err = vm.Run(src) })
+		hook.Set(nil)
+		w.Eval(1)
+		if pv != nil {
+			w.Violate(idx, "panic", fw.PanicKey(pv, st), desc, fmt.Sprint(pv), nil)
+			return
+		}
+		if err != nil {
+			w.Violate(idx, "dice-rule", "dice|vm|default-sides|rejected", desc, firstLine(err.Error()), nil)
+			return
+		}
+		for _, sd := range sidesSeen {
+			if sd != want {
+				w.Violate(idx, "dice-rule", "dice|vm|default-sides|stale", desc, fmt.Sprintf("a die without explicit sides was rolled with %d sides, the configured default is %d", sd, want), nil)
+				return
+			}
+		}
+		if int64(len(sidesSeen)) != times {
+			w.Violate(idx, "dice-rule", "dice|vm|default-sides|count", desc, fmt.Sprintf("%d dice drawn for %s", len(sidesSeen), src), nil)
+		}
+		total, _ := vm.Ret.ReadInt()
+		var sum int64
+		for _, d := range tap.drawn {
+			sum += d
+			if d < 1 || d > want {
+				w.Violate(idx, "dice-rule", "dice|vm|default-sides|range", desc, fmt.Sprintf("die %d outside 1..%d", d, want), nil)
+			}
+		}
+		if int64(total) != sum {
+			w.Violate(idx, "dice-rule", "dice|vm|default-sides|total", desc, fmt.Sprintf("total %d, dice sum %d", total, sum), nil)
+		}
+	}
+	w.Count("default_sides_sequences", 1)
+	w.Note(fw.Hash64(fmt.Sprint(hist), fmt.Sprint(cfg.Seed)))
 }
 
 // c04CommonTerm builds one XdY term with modifiers and its rule parameters.
